@@ -351,10 +351,14 @@ func (ms *Modules) Process() []error {
 		return errorSort(errs)
 	}
 
-	for _, m := range ms.Modules {
+	// Converting a module merges its submodules into it, and a submodule
+	// is merged once per module name.  Visit the modules in the order of
+	// the names they are filed under, so that which of two revisions of a
+	// module receives the submodule does not depend on map iteration order.
+	for _, m := range sortedModules(ms.Modules) {
 		errs = append(errs, ToEntry(m).GetErrors()...)
 	}
-	for _, m := range ms.SubModules {
+	for _, m := range sortedModules(ms.SubModules) {
 		errs = append(errs, ToEntry(m).GetErrors()...)
 	}
 
